@@ -99,7 +99,8 @@ pub fn draw(r: &mut Rng, profile: Profile, enabled: &[String]) -> (E1Config, Kno
     // positions allowed to write (under tight size pressure only short-id nodes own data, so that
     // "digest + node op + one key-value fit a datagram" keeps holding)
     let mut writers: Vec<usize> = (0..n).collect();
-    let ipv6 = r.chance(0.3);
+    let addr_kind = *r.pick(&[0u8, 0, 0, 0, 0, 0, 1, 2, 3]);
+    let ipv6 = r.chance(0.3) || addr_kind == 1 || addr_kind == 2;
     let addr_bytes = if ipv6 { 19 } else { 7 };
     if profile == Profile::SizePressure {
         if r.chance(0.6) {
@@ -163,6 +164,7 @@ pub fn draw(r: &mut Rng, profile: Profile, enabled: &[String]) -> (E1Config, Kno
         cluster_ids,
         node_ids,
         ipv6,
+        addr_kind,
         grace_ms: skew(r, grace),
         dead_grace_ms: skew(r, dead_grace),
         phi: *r.pick(&[2.0, 4.0, 8.0]),
